@@ -15,6 +15,7 @@ SEEDS = [
     b"\x01\x00HTTP/1.1 404 Not Found\r\nContent-Length: 3\r\n\r\nabc",
     b"\x01\x03HTTP/1.1 302 Found\r\nLocation: ws://next.test/\r\n\r\n",
     b"\x01\x00HTTP/1.1 503 Busy\r\nContent-Length: 70000\r\n\r\nbody",
+    b"\x01\x00HTTP/1.1 503 Busy\r\nContent-Length: " + b"9" * 4301 + b"\r\n\r\nbody",
     b"\x03\x00Upgrade: websocket\r\nConnection: Upgrade\r\nSec-WebSocket-Accept: $ACCEPT$\r\nSet-Cookie: a=b; Domain=fuzz.test\r\n\r\n",
     b"\x00\x00\x81\x05Hello\x89\x00\x01\x03abc\x80\x00\x88\x02\x03\xe8",
     b"\x04\x02\x82\x7e\x00\x7e" + b"x" * 126,
